@@ -335,7 +335,7 @@ def oracle_replace(case) -> Result:
     # constructor from components
     if case.get("ctor"):
         kw = {k: v for k, v in (("scheme", base["scheme"]), ("hostname", base["host"]), ("port", base["port"]), ("username", base["username"]),
-                                ("password", base["password"]), ("path", base["path"]), ("query", base["query"]), ("fragment", base["fragment"])) if v is not None and not (v == "" and k != "password")}
+                                ("password", base["password"]), ("path", base["path"]), ("query", base["query"]), ("fragment", base["fragment"])) if v is not None and not (v == "" and k not in ("password", "username"))}
         built = URL(**kw)
         g2 = split_url(str(built))
         e2 = dict(base)
@@ -658,7 +658,7 @@ NEW_VALUES = {
 def base_url(draw):
     hk = draw(st.sampled_from(["named", "named", "v4", "v6"]))
     host = f"[{draw(_v6)}]" if hk == "v6" else draw(_hostname)
-    user = draw(st.one_of(st.none(), _unres))
+    user = draw(st.one_of(st.none(), _unres, _unres, _unres, st.just("")))  # ":password@host" (token-style, empty user name) is a legal user-info part
     pw = draw(st.one_of(st.none(), _pw)) if user is not None else None
     base = {
         "scheme": draw(st.sampled_from(["http", "https", "ws", "ftp"])),
@@ -820,7 +820,8 @@ def repr_grid():
     """Passwords that also occur earlier or later in the URL text (user name, scheme, host, path, query, fragment), on every host kind."""
     for host, port in (("example.org", None), ("EXAMPLE.com", 8080), ("127.0.0.1", 0), ("[::1]", None), ("[fe::2]", 8443)):
         for user, pw in (("guest", "guest"), ("0", "0"), ("user", "s"), ("user", "user:user"), ("t", "t"), ("u", "http"), ("u", "example"), ("u", "p@ss"),
-                         ("u", "a:b@c"), ("u", "********"), ("u", "secret"), ("u", "1"), ("u", "e"), ("u", ""), ("u", None), (None, None)):
+                         ("u", "a:b@c"), ("u", "********"), ("u", "secret"), ("u", "1"), ("u", "e"), ("u", ""), ("u", None), (None, None),
+                         ("", "secret"), ("", "p@ss"), ("", "0"), ("", "example"), ("", ""), ("", None)):
             for path, query, fragment in (("", "", ""), ("/secret/x", "secret=1&e=a@b.c:1", "secret"), ("/a@b:c", "", "f@g:2/h?i")):
                 yield {"base": {"scheme": "http", "username": user, "password": pw, "host": host, "port": port, "path": path, "query": query, "fragment": fragment}}
     for base in text_bases():  # port spelled with leading zeros / empty
